@@ -537,7 +537,9 @@ where
                             utf16_start_column + utf16_len(&self.source[name_range.clone()]);
                         let utf16_column_range = utf16_start_column..utf16_end_column;
 
-                        self.prev_line_info = Some(LineInfo {
+                        // The cached line range and UTF-16 column describe the row on which the
+                        // name starts, so they can only be reused if the name ends on that row.
+                        self.prev_line_info = (span.start.row == span.end.row).then(|| LineInfo {
                             utf8_position: span.end,
                             utf8_byte: name_range.end,
                             utf16_column: utf16_end_column,
